@@ -91,4 +91,4 @@ def check_case(case):
 
 def run(tier="quick", seed=0):
     return common.run("bounded.C07", cases(tier, seed), bound="3 candidates x <=3 ballots exhaustive + 4-candidate samples, all coalitions",
-                      rule=RULE, budget_s=170 if tier == "quick" else 1500)
+                      rule=RULE, budget_s=600 if tier == "quick" else 1500)
